@@ -90,7 +90,10 @@ package backend
 //@ func (*backend).create(ctx, key, value) (revision, err)
 //@   props C04 C17
 //@   requires wf_backend(b) && pending == 0 && !batch_open
-//@   modifies ghost.pending ghost.max_issued ghost.bw_n ghost.bw_kind ghost.bw_key ghost.bw_val ghost.bw_old ghost.bw_ttl ghost.commits ghost.last_batch ghost.last_err ghost.batch_open ghost.floor ghost.floor_set
+//@   requires [events-dir] events_dir_of(b.config.Prefix)
+//@   ensures [ttl-only-for-event-records] last_ttl != old(last_ttl) && last_ttl != 0 ==> has_prefix(key, events_dir)
+//@   ensures [event-records-get-the-ttl] has_prefix(key, events_dir) && revision != 0 ==> last_ttl == eventsTTL
+//@   modifies ghost.last_ttl ghost.pending ghost.max_issued ghost.bw_n ghost.bw_kind ghost.bw_key ghost.bw_val ghost.bw_old ghost.bw_ttl ghost.commits ghost.last_batch ghost.last_err ghost.batch_open ghost.floor ghost.floor_set
 //@   ensures [dealt-is-returned] pending == revision
 //@   ensures [range] revision == 0 || revision < 0x8000000000000000
 //@   ensures [closed] !batch_open
@@ -106,13 +109,15 @@ package backend
 //@ func (*backend).Create(ctx, put) (resp, err)
 //@   props C04
 //@   requires wf_backend(b) && put != nil && pending == 0 && !batch_open
-//@   modifies ghost.pending ghost.max_issued ghost.bw_n ghost.bw_kind ghost.bw_key ghost.bw_val ghost.bw_old ghost.bw_ttl ghost.commits ghost.last_batch ghost.last_err ghost.batch_open ghost.floor ghost.floor_set []atomic.Value
+//@   requires [events-dir] events_dir_of(b.config.Prefix)
+//@   modifies ghost.last_ttl ghost.pending ghost.max_issued ghost.bw_n ghost.bw_kind ghost.bw_key ghost.bw_val ghost.bw_old ghost.bw_ttl ghost.commits ghost.last_batch ghost.last_err ghost.batch_open ghost.floor ghost.floor_set []atomic.Value
 //@   ensures [every-dealt-revision-reported] pending == 0
 
 //@ func (*backend).Update(ctx, r) (resp, err)
 //@   props C04
 //@   requires wf_backend(b) && r != nil && r.Kv != nil && pending == 0 && !batch_open
-//@   modifies ghost.pending ghost.max_issued ghost.bw_n ghost.bw_kind ghost.bw_key ghost.bw_val ghost.bw_old ghost.bw_ttl ghost.commits ghost.last_batch ghost.last_err ghost.batch_open ghost.floor ghost.floor_set []atomic.Value
+//@   requires [events-dir] events_dir_of(b.config.Prefix)
+//@   modifies ghost.last_ttl ghost.pending ghost.max_issued ghost.bw_n ghost.bw_kind ghost.bw_key ghost.bw_val ghost.bw_old ghost.bw_ttl ghost.commits ghost.last_batch ghost.last_err ghost.batch_open ghost.floor ghost.floor_set []atomic.Value
 //@   ensures [every-dealt-revision-reported] pending == 0
 
 //@ func (*backend).Delete(ctx, r) (resp, err)
@@ -317,3 +322,23 @@ package backend
 //@ func Backend.GetResourceLock() (result)
 //@   assumed
 //@   pure
+
+// ---- C17: expiry applies to Event records only ----
+// events_dir is the events resource directory directly under the configured prefix
+// (prefix + "/events/"); last_ttl is the ttl of the most recent creator call (0: none).
+//@ ghost events_dir Str
+//@ ghost last_ttl Int
+
+// the prefix is configured without a trailing slash (the code tolerates one; the contracts
+// are stated for the usual configuration)
+//@ pred events_dir_of(prefix) = is_events_dir(events_dir, prefix) && !has_suffix(prefix, "/")
+
+//@ func getEventsPrefix(prefix) (result)
+//@   props C17
+//@   requires !has_suffix(prefix, "/")
+//@   ensures [dir] is_events_dir(result, prefix) && fresh(result)
+
+//@ func isEventKey(prefix, key) (result)
+//@   props C17
+//@   requires events_dir_of(prefix)
+//@   ensures [event-records-only] result == has_prefix(key, events_dir)
